@@ -1,11 +1,17 @@
 (* C06 — DSL 2.0 compilation preserves the dataflow and parameter bindings.  Property theorems only.
    All statements are about the compiler model of Model.v (tied to dsl.py by the correspondence run).
-   PARTIAL: the end-to-end refinement "compile = denotational flattener" is NOT a theorem here; its two
-   semantic ingredients are (C06_refines_params, C06_refines_producer) and the end-to-end statement is
-   checked on every generated namespace by harness/c06.py (independent flattener [spec]). *)
+   The specification is Spec.v ([spec_ns], the Gallina port of the flattener of harness/c06.py, tied to it and to
+   [compile] on every generated namespace by the correspondence run).
+   PARTIAL: the end-to-end refinement "compile ns = spec_ns ns" is NOT a theorem; what is proved for all inputs is
+   every level of it taken separately — one workflow level of parameter propagation (C06_refines_step), the
+   arguments of a component instance (C06_refines_args), the producer of a reference (C06_producer_is_spec,
+   C06_refines_producer_spec) — plus uniqueness of names and locations in the output of compile, and rejection
+   of faults found inside the traversal.  The global assembly (the traversal visits exactly the instance tree of
+   the specification; resolve_all applies the step lemma to every scope, parents first) is checked by
+   [check_refines] on every generated namespace only. *)
 From Coq Require Import String Ascii List Bool Arith NArith.
 Import ListNotations.
-Require Import V.Lib.PyStr V.Dsl.Model V.Dsl.Proofs.
+Require Import V.Lib.PyStr V.Dsl.Model V.Dsl.Proofs V.Dsl.Spec V.Dsl.Refine.
 Open Scope list_scope.
 
 (* the (stage, name) pairs given to ANY list of component scopes are pairwise distinct *)
@@ -76,6 +82,105 @@ Theorem C06_dup_template_reported : forall kind names seen idx n,
 Proof. exact dup_reported. Qed.
 Print Assumptions C06_dup_template_reported.
 
+(* ---------------------------------------------------------------- refinement against Spec.v *)
+(* ONE WORKFLOW LEVEL (the inductive step of parameter propagation): if the parent scope p (a workflow instance
+   at [loc], below the entry instance) holds a resolved environment (ground and absolute, [good_env]), then
+   resolve_scope turns the raw parameters of the child scope at loc ++ [step] into exactly the values the
+   specification assigns ([ev] in the parent's environment, siblings = the parent's other steps), reports no
+   error, and the child's environment is resolved again. *)
+Theorem C06_refines_step : forall st sc loc step p w pars',
+  s_loc sc = loc ++ [step] -> (exists l', loc = ENTRY :: l') ->
+  find_scope loc (r_scopes st) = Some p -> s_tmpl p = TW w -> good_env (s_pars p) ->
+  mem ENTRY (map fst (w_steps w)) = false ->
+  Forall2 (fun nv nv' => fst nv' = fst nv /\ well_shaped (snd nv) = true /\ no_replica (snd nv) /\
+             ev (s_pars p) loc (Some (filter (fun s => negb (String.eqb s step)) (map fst (w_steps w)))) []
+                (snd nv) = Some (snd nv')) (s_pars sc) pars' ->
+  resolve_scope st sc = {| r_scopes := replace_scope (set_pars sc pars') (r_scopes st);
+                           r_errs := r_errs st; r_unsupp := r_unsupp st |}
+  /\ good_env pars'.
+Proof. exact resolve_step. Qed.
+Print Assumptions C06_refines_step.
+
+(* one value: the three phases of the model (absolutise with the sibling check, walk up, absolutise again)
+   compute the specification's [ev] *)
+Theorem C06_refines_value : forall f scs cur loc sib v o p,
+  find_scope (parent_loc cur) scs = Some p -> good_env (s_pars p) ->
+  (exists l', loc = ENTRY :: l') -> mem ENTRY sib = false -> no_replica v ->
+  ev (s_pars p) loc (Some sib) [] v = Some o ->
+  forallb (sibling_ok sib) v = true /\
+  resolve_loop (S f) scs cur ["replica"%string] (absolutise loc v) = SOk o /\
+  absolutise loc o = o /\ ground o /\ absolute o.
+Proof. exact resolve_value. Qed.
+Print Assumptions C06_refines_value.
+
+(* THE ARGUMENTS OF A COMPONENT INSTANCE: in a resolved environment the component-level substitution returns the
+   specification's evaluation of the argument template, without error; every parameter reference left is one
+   of the component's own variables *)
+Theorem C06_refines_args : forall N sc c args,
+  good_env (s_pars sc) ->
+  (forall x, mem x (c_vars c) = true -> lookup x (s_pars sc) = None) ->
+  ev (s_pars sc) [] None (c_vars c) (c_args c) = Some args ->
+  comp_args N sc c = (args, [], false) /\ (forall x, In x (refs_of args) -> mem x (c_vars c) = true).
+Proof. exact comp_args_ev. Qed.
+Print Assumptions C06_refines_args.
+
+(* PRODUCERS: the producer the compiler wires a reference to is the producer of the specification, and
+   conversely (distinct, non-empty component locations): same producer, or no producer on both sides *)
+Theorem C06_producer_is_spec : forall names path l c,
+  split_ref names path None = Some (l, c) -> spec_producer (map fst names) path = Some l.
+Proof. exact split_ref_is_spec. Qed.
+Print Assumptions C06_producer_is_spec.
+
+Theorem C06_refines_producer_spec : forall names path,
+  NoDup (map fst names) -> (forall l c, In (l, c) names -> l <> []) ->
+  match spec_producer (map fst names) path with
+  | Some l => exists c, lookup_loc l names = Some c /\ split_ref names path None = Some (l, c)
+  | None => split_ref names path None = None
+  end.
+Proof. exact producer_is_spec. Qed.
+Print Assumptions C06_refines_producer_spec.
+
+(* ---------------------------------------------------------------- uniqueness in the OUTPUT of compile *)
+(* the traversal never records two scopes at the same location *)
+Theorem C06_scope_locations_distinct : forall N scs, discover N = Ok scs -> NoDup (map s_loc scs).
+Proof. exact discover_nodup. Qed.
+Print Assumptions C06_scope_locations_distinct.
+
+(* whatever compile returns: the (stage, name) pairs of the components are pairwise distinct, and so are the
+   instance locations they stand for *)
+Theorem C06_names_unique_compile : forall N cis,
+  compile N = Ok cis -> NoDup (map ci_id cis) /\ NoDup (map ci_loc cis).
+Proof. exact compile_unique. Qed.
+Print Assumptions C06_names_unique_compile.
+
+(* ---------------------------------------------------------------- rejection inside the traversal *)
+(* an error result always lists at least one location *)
+Theorem C06_err_nonempty : forall N e, compile N = Err e -> e <> [].
+Proof. exact compile_err_nonempty. Qed.
+Print Assumptions C06_err_nonempty.
+
+(* errors are never forgotten by the rest of the traversal *)
+Theorem C06_errors_kept : forall fuel N anc parent l dsl t args st,
+  has_err st -> has_err (visit fuel N anc parent l dsl t args st).
+Proof. exact visit_has_err. Qed.
+Print Assumptions C06_errors_kept.
+
+(* AT ANY DEPTH: when the traversal enters a workflow instance one of whose execute entries targets no step,
+   names an unknown template, closes a template cycle, supplies an unknown argument, omits a required argument
+   or refers to an unknown parameter, or one of whose steps is never executed ([wf_fault]), an error is recorded *)
+Theorem C06_fault_reported : forall f N anc parent l dsl w args st,
+  d_abort st = false -> wf_fault N anc w ->
+  has_err (visit (S f) N anc parent l dsl (TW w) args st).
+Proof. exact visit_fault. Qed.
+Print Assumptions C06_fault_reported.
+
+(* END TO END for the entry workflow: such a namespace is never compiled (with C06_err_nonempty: the result is
+   Err with locations, or the model abstains — fuel sufficiency of the traversal is not proved) *)
+Theorem C06_reject_entry_fault : forall N w,
+  get_template N (n_entry N) = Some (TW w) -> wf_fault N [] w -> forall cis, compile N <> Ok cis.
+Proof. exact reject_entry_fault. Qed.
+Print Assumptions C06_reject_entry_fault.
+
 (* non-vacuity: tests/test_dsl.py dsl_step_via_param_more_complex — a partial reference <producer/producer>
    forwarded through a workflow parameter and completed one level down *)
 Definition ex_ns : ns :=
@@ -99,3 +204,51 @@ Example C06_example :
           ci_refs := ["stage0.producer/outputs/msg.txt:output"; "stage0.producer/outputs/msg.txt:output"];
           ci_args := "stage0.producer/outputs/msg.txt:output" |} ].
 Proof. vm_compute. reflexivity. Qed.
+
+(* the specification on the same namespace, and the refinement check the correspondence run evaluates *)
+Example C06_example_spec :
+  spec_ns ex_ns =
+  Some [ {| so_loc := ["entry-instance"; "producer"; "producer"]; so_args := [Lit "-c hi"]; so_refs := [] |};
+         {| so_loc := ["entry-instance"; "consumer"; "consumer"];
+            so_args := [Out ["entry-instance"; "producer"; "producer"; "outputs"; "msg.txt"] (Some "output")];
+            so_refs := [(["entry-instance"; "producer"; "producer"], ["outputs"; "msg.txt"], "output");
+                        (["entry-instance"; "producer"; "producer"], ["outputs"; "msg.txt"], "output")] |} ]
+  /\ check_refines ex_ns = true.
+Proof. vm_compute. split; reflexivity. Qed.
+
+(* the hypotheses of C06_refines_step are satisfiable: the scope of the workflow step "consumer" under the entry
+   instance, whose parameter is the partial reference <producer/producer> *)
+Definition ex_scs : list scope := match discover ex_ns with Ok s => s | _ => [] end.
+Definition ex_get (l : list string) : scope :=
+  match find_scope l ex_scs with Some s => s
+  | None => {| s_loc := []; s_dsl := []; s_tl := []; s_tmpl := TW {| w_name := ""; w_params := []; w_steps := []; w_exec := [] |}; s_pars := [] |} end.
+Example C06_step_example :
+  let st := {| r_scopes := ex_scs; r_errs := []; r_unsupp := false |} in
+  let sc := ex_get ["entry-instance"; "consumer"] in
+  let p := ex_get ["entry-instance"] in
+  exists w pars',
+    s_loc sc = ["entry-instance"] ++ ["consumer"] /\ find_scope ["entry-instance"] (r_scopes st) = Some p /\
+    s_tmpl p = TW w /\ good_env (s_pars p) /\ mem ENTRY (map fst (w_steps w)) = false /\
+    pars' = [("producer", [Out ["entry-instance"; "producer"; "producer"] None])] /\
+    Forall2 (fun nv nv' => fst nv' = fst nv /\ well_shaped (snd nv) = true /\ no_replica (snd nv) /\
+               ev (s_pars p) ["entry-instance"] (Some (filter (fun s => negb (String.eqb s "consumer")) (map fst (w_steps w)))) []
+                  (snd nv) = Some (snd nv')) (s_pars sc) pars'.
+Proof.
+  cbv zeta. eexists. eexists.
+  split; [vm_compute; reflexivity|]. split; [vm_compute; reflexivity|]. split; [vm_compute; reflexivity|].
+  split; [vm_compute; intros x v []|]. split; [vm_compute; reflexivity|]. split; [reflexivity|].
+  vm_compute. constructor; [|constructor]. repeat split. intros [].
+Qed.
+
+(* the hypotheses of the rejection theorems are satisfiable: a step of the entry workflow names no template *)
+Definition ex_bad : ns :=
+  {| n_entry := "main"; n_eargs := [];
+     n_wfs := [ {| w_name := "main"; w_params := []; w_steps := [("a", "nosuch")]; w_exec := [("a", [])] |} ];
+     n_comps := [] |}.
+Example C06_reject_example :
+  wf_fault ex_bad [] {| w_name := "main"; w_params := []; w_steps := [("a", "nosuch")]; w_exec := [("a", [])] |}
+  /\ compile ex_bad = Err [[LS "workflows"; LN 0; LS "execute"; LN 0]] /\ spec_ns ex_bad = None.
+Proof.
+  split; [|vm_compute; split; reflexivity].
+  left. exists ("a", []). split; [left; reflexivity|]. vm_compute. exact I.
+Qed.
